@@ -28,11 +28,7 @@ var _ *raft.RaftGroup
 //@ modifies *
 
 // constructors used by the wiring: only their existence matters for the ordering obligations (bodies are not read here)
-//@ func storage/wal.NewBadgerWAL
-//@ props C14 C05 C12
-//@ assume
-//@ ensures [wal] ret != nil
-//@ modifies nothing
+// (storage/wal.NewBadgerWAL is verified in its own package)
 //@ func cluster.NewConn
 //@ props C14 C05
 //@ assume
